@@ -39,7 +39,7 @@ def specKeys (p : Spec.Profile) (role : String) (cn sn : Bytes) : Option DirKeys
 
 def handle : List String → String
   | ["selftest"] =>
-    match CryptoRef.selfTestFailures with
+    match CryptoRef.selfTestFailures ++ (if cbcCrossCheck then [] else ["cbc-list-vs-bytearray"]) with
     | [] => "ok"
     | l => " ".intercalate l
   | ["impl", pol, ln, rn] =>
